@@ -422,6 +422,36 @@ var otherArgs = []any{
 	[]myInt{1}, (*int)(nil), [2]int{1, 2}, struct{}{}, []otherT{}, errors.New("x"), 'a' + 0i,
 }
 
+// exoticW: byte sizes that are invalid as mathematical integers but collide with a valid width after
+// a narrowing conversion (w + k*2^32, w + k*2^8, ...), and the extremes of int.
+var exoticW = []int{
+	1<<32 + 1, 1<<32 + 2, 1<<32 + 4, 1<<32 + 8, 3<<32 + 8, -(1 << 32) + 4, -(1 << 32) + 8, 1 << 32, 1 << 31, -(1 << 31),
+	1<<8 + 1, 1<<8 + 4, 1<<16 + 2, 1<<16 + 8, 1<<63 - 1, -1 << 63, 1<<62 + 4, 5, 6, 7, 9, 32, 64, -2, -4, -8,
+}
+
+// corpusExoticSizes: the three numeric constructors at the exotic byte sizes (a few values each).
+func corpusExoticSizes() {
+	for _, w := range exoticW {
+		for _, kind := range []byte{'I', 'U'} {
+			for _, zs := range [][]*big.Int{{big.NewInt(1)}, {big.NewInt(0), big.NewInt(200), big.NewInt(7)}} {
+				var e *expr
+				if len(zs) == 1 {
+					e = numExpr(kind, w, mkScalar(tInt, zs[0]))
+				} else {
+					e = numExpr(kind, w, mkSlice(tInt, zs))
+				}
+				it, ok := emitConstruct(e)
+				if ok {
+					checkIntegers(kind, w, zs, it, "C "+e.syntax())
+				}
+				c.Count("exotic-byte-size")
+			}
+		}
+		checkFloat(numExpr('F', w, f64(f64Corpus[0])), w)
+		checkFloat(numExpr('F', w, []float64{1.5, 2.5}), w)
+	}
+}
+
 // corpusIntegers: every integer Go type x byte size x boundary value, as scalar, slice and string.
 func corpusIntegers() {
 	for _, kind := range []byte{'I', 'U'} {
@@ -1148,6 +1178,7 @@ func main() {
 	initBoundaries()
 
 	corpusIntegers()
+	corpusExoticSizes()
 	corpusStrings()
 	corpusFloats()
 	corpusOthers()
